@@ -35,16 +35,22 @@
                                                                    C13_ineffective_not_pending
   timer armed with deadline now + min(timeout, max) — or forwarded C13_forward (first chunk),
                                                                    C13_later_chunk_timer
-  never earlier: only armed, not-cancelled timers whose deadline   C13_timeout_not_before
-    has been reached fire, earliest first, at their deadline
-  exactly when it expires: after the tick reaching the deadline    C13_timeout_all_fired
-    no due timer is left
+  at most one live timer per call; every live timer belongs to a    C13_timer_owned, C13_timer_unique
+    pending call and is the one its invocation records               (part of DealerInv)
+  a pending, not cancelled timed call HAS its timer live (client    C13_timer_live (reachable realm states),
+    callees; not while parked in the final YIELD's retry loop)       C13_timer_live_step (per dealer step)
+  never earlier: only armed, not-cancelled timers whose deadline   C13_timeout_not_before,
+    has been reached fire, earliest first, at their deadline; the     C13_timeout_not_early
+    firing timer is the recorded, only live timer of its pending call
+  exactly when it expires: after the tick reaching the deadline    C13_timeout_all_fired,
+    no due timer is left, and no pending timed call has a deadline   C13_timeout_exact, C13_timeout_exact_tick
+    `≤ now`
   what a firing timer does (ERROR timeout + INTERRUPT as for       C13_timeout_effect,
     killnowait; nothing if the call is gone or cancelled)          C13_timeout_stale
   a cancelled timer never fires; timers are never revived or       (C13_timeout_not_before),
     dropped by the dealer                                          C13_timers_persist
   never after the call completed: completion cancels the recorded  C13_timeout_cancelled_on_completion
-    (latest) timer
+    timer (and there is no other live one: C13_timer_owned)
 
   yield retry loop (C07's bounded exception): retried at +1, +3, +7 …   C13_retry_enter, C13_retry_turn,
     ms after the start; gives up (cancels the call) at the first turn    C13_retry_bound, C13_retry_busy
@@ -65,6 +71,7 @@ import Nexus.L2.Proofs.DealerTimer
 import Nexus.L2.Proofs.DealerInvoke
 import Nexus.L2.Proofs.DealerExamples
 import Nexus.L2.Proofs.DealerRealmRpc
+import Nexus.L2.Proofs.WpBTimerRealm
 
 namespace Nexus.C13
 open Nexus.L2 Nexus.Gen.N Nexus
@@ -336,28 +343,233 @@ theorem C13_timeout_stale (r : Realm) (t : Timer)
     rw [this]
 
 /-- No `sync*` function removes a timer from the table, changes its call or deadline, or revives a cancelled one:
-    timers leave the table only in `Realm.timerDue`, when they fire. -/
-theorem C13_timers_persist {s : DState} {o : DOut} (st : DStep s o)
-    (hnd : ∀ p, o ≠ { st := { s with timers := s.timers.filter p } }) {t : Timer} (ht : t ∈ s.timers) :
-    ∃ t' ∈ o.st.timers, t'.id = t.id ∧ t'.caller = t.caller ∧ t'.req = t.req ∧ t'.deadline = t.deadline ∧
-      (t.canceled = true → t'.canceled = true) := by
-  obtain ⟨t', h1, h2, h3⟩ := (st.timers_grow hnd).mem ht
-  simp only [Timer.shape, Prod.mk.injEq] at h2
-  exact ⟨t', h1, h2.1, h2.2.1, h2.2.2.1, h2.2.2.2, h3⟩
+    timers leave the table only in `Realm.timerDue`, when they fire.  Across ANY step of the dealer, a timer of the
+    table either is still there — same id, call, deadline, and cancelled if it was — or the step is the expiry
+    bookkeeping `dropTimers p` (`Realm.timerDue` uses `p = (·.id ≠ fired.id)`) and `p` rejects that timer. -/
+theorem C13_timers_persist {s : DState} {o : DOut} (st : DStep s o) {t : Timer} (ht : t ∈ s.timers) :
+    (∃ t' ∈ o.st.timers, t'.id = t.id ∧ t'.caller = t.caller ∧ t'.req = t.req ∧ t'.deadline = t.deadline ∧
+      (t.canceled = true → t'.canceled = true)) ∨
+    (∃ p, o = { st := { s with timers := s.timers.filter p } } ∧ p t = false) := by
+  rcases st.timer_persists_or_dropped ht with ⟨t', h1, h2, h3⟩ | hdrop
+  · simp only [Timer.shape, Prod.mk.injEq] at h2
+    exact Or.inl ⟨t', h1, h2.1, h2.2.1, h2.2.2.1, h2.2.2.2, h3⟩
+  · exact Or.inr hdrop
 
-/-- NEVER AFTER THE CALL COMPLETED.  When a step removes a call (final reply, cancel, callee or caller gone),
-    the timer recorded in its invocation — the one armed by the latest chunk — is cancelled in the same step,
-    hence never fires (`C13_timeout_not_before`, `C13_timers_persist`). -/
+/-- both alternatives occur: a CALL keeps timer 1 of `Ex.sTimed`; the bookkeeping step that rejects it drops it -/
+example : (∃ t ∈ Ex.sTimed.timers, t.id = 1) ∧
+    ({ Ex.sTimed with timers := Ex.sTimed.timers.filter (fun y => y.id != 1) } : DState).timers = [] := by
+  decide +kernel
+
+/-- NEVER AFTER THE CALL COMPLETED.  When a step (ANY step) removes a call (final reply, cancel, callee or caller
+    gone), the timer recorded in its invocation is cancelled in the same step, hence never fires
+    (`C13_timeout_not_before`, `C13_timers_persist`); and a pending call has no other live timer
+    (`C13_timer_owned`). -/
 theorem C13_timeout_cancelled_on_completion {s : DState} {o : DOut} (h : DealerInv s) (st : DStep s o)
-    (hnd : ∀ p, o ≠ { st := { s with timers := s.timers.filter p } })
     {v : Invk} (hv : v ∈ s.d.invs) {tid : Nat} (hvt : v.timer = some tid) (hgone : v.callId ∉ o.st.d.calls)
     {t : Timer} (ht : t ∈ s.timers) (hid : t.id = tid) :
     ∀ t' ∈ o.st.timers, t'.id = tid → t'.canceled = true :=
-  st.completion_cancels_timer h hnd hv hvt hgone ht hid
+  st.completion_cancels_timer h hv hvt hgone ht hid
+
+/-- NO STALE TIMERS (invariant, part of `DealerInv`, hence true in every reachable dealer state and — through
+    `RealmInv.dinv` — in every reachable realm state).  Every armed, not cancelled timer in the table is THE timer
+    recorded in the stored invocation of its call, and that call is pending: no live timer survives the call it was
+    armed for (whatever ended the call), and none survives a later chunk that re-armed the timeout. -/
+theorem C13_timer_owned {s : DState} (h : DealerInv s) {t : Timer} (ht : t ∈ s.timers) (hc : t.canceled = false) :
+    ∃ v ∈ s.d.invs, v.callId = ⟨t.caller, t.req⟩ ∧ v.timer = some t.id ∧ (⟨t.caller, t.req⟩ : ReqId) ∈ s.d.calls := by
+  obtain ⟨v, hv, hvc, hvt⟩ := h.aux.timerOwned t ht hc
+  exact ⟨v, hv, hvc, hvt, hvc ▸ (h.call.inv_call hv).1⟩
+
+/-- AT MOST ONE LIVE TIMER PER CALL: two armed, not cancelled timers for the same (caller, request) are the same
+    table entry. -/
+theorem C13_timer_unique {s : DState} (h : DealerInv s) {t1 t2 : Timer} (h1 : t1 ∈ s.timers) (h2 : t2 ∈ s.timers)
+    (hc1 : t1.canceled = false) (hc2 : t2.canceled = false) (hcaller : t1.caller = t2.caller) (hreq : t1.req = t2.req) :
+    t1 = t2 := by
+  obtain ⟨v1, hv1, hvc1, hvt1⟩ := h.aux.timerOwned t1 h1 hc1
+  obtain ⟨v2, hv2, hvc2, hvt2⟩ := h.aux.timerOwned t2 h2 hc2
+  have : v1 = v2 := nodup_map_inj h.call.invCalls hv1 hv2 (by rw [hvc1, hvc2, hcaller, hreq])
+  subst this
+  rw [hvt1] at hvt2
+  exact nodup_map_inj h.aux.timerIds h1 h2 (Option.some.inj hvt2)
+
+/-- the reachable two-chunk state `Ex.sProgT2` has two timers for call (2, 8); only the second is live -/
+example : DealerInv Ex.sProgT2 ∧
+    Ex.sProgT2.timers.map (fun t => (t.id, t.caller, t.req, t.canceled)) = [(1, 2, 8, true), (2, 2, 8, false)] :=
+  ⟨Ex.sProgT2_reach.inv, by decide +kernel⟩
 
 /-- the timed call of `Ex.sTimed` is answered by its callee: timer 1 is cancelled -/
 example : (syncYield Ex.env Ex.sTimed 1 1 [] [] [] false true).st.timers.map (fun t => (t.id, t.canceled)) = [(1, true)] := by
   decide +kernel
+
+/-! ### timeouts: the call's timer is live, the tick ends every call whose deadline it reaches -/
+
+/-- a concrete reachable realm: callee 1 (call canceling, no call_timeout) registered "p", caller 2 called it with
+    `timeout: 100` at time 0: invocation (1, 1), timer 1 with deadline 100 -/
+def Ex.realmOps : List Realm.Op :=
+  [ .join 1 false [] [(RoleCallee, [FeatureCallCanceling])] 8,
+    .join 2 false [] [(RoleCaller, [])] 8,
+    .msg 1 (.register 1 [] "p"),
+    .msg 2 (.call 5 [(OptTimeout, .int 100)] "p" [] []) ]
+
+def Ex.realmRun (r : Realm) (ops : List Realm.Op) : Realm := ops.foldl (fun r op => (r.step op).2) r
+
+theorem Ex.realmRun_reachable {cfg : Config} : ∀ (ops : List Realm.Op) {r : Realm}, Realm.Reachable cfg r →
+    Realm.Reachable cfg (Ex.realmRun r ops)
+  | [], _, h => h
+  | op :: ops, _, h => Ex.realmRun_reachable ops (.step op h)
+
+def Ex.rTimed : Realm := Ex.realmRun ((Realm.create {}).getD default) Ex.realmOps
+
+theorem Ex.rTimed_reachable : Realm.Reachable {} Ex.rTimed := by
+  have hc : Realm.create {} = some ((Realm.create {}).getD default) := by
+    have : (Realm.create {}).isSome = true := by decide +kernel
+    cases h : Realm.create {} with
+    | none => rw [h] at this; cases this
+    | some r => rfl
+  exact Ex.realmRun_reachable _ (.init hc)
+
+set_option maxRecDepth 100000 in
+theorem Ex.rTimed_facts :
+    Ex.rTimed.ds.d.invs.map (fun v => (v.id, v.callId, v.canceled, v.timer, v.callee)) =
+      [(⟨1, 1⟩, ⟨2, 5⟩, false, some 1, 1)] ∧
+    Ex.rTimed.ds.timers.map (fun t => (t.id, t.deadline, t.caller, t.req, t.canceled)) = [(1, 100, 2, 5, false)] ∧
+    Ex.rTimed.retries.length = 0 ∧ Ex.rTimed.now = 0 :=
+  ⟨by decide +kernel, by decide +kernel, by decide +kernel, by decide +kernel⟩
+
+/-- THE RECORDED TIMER IS LIVE (invariant of every reachable realm state, `WpB.Reachable.tinv`).  A pending, not
+    cancelled call served by a client session whose invocation records a router-side timer `tid` has that timer in
+    the table, armed and not cancelled, keyed by the call — unless the callee's handler currently sits in the retry
+    loop of a non-progress YIELD for this very invocation (`WpB.parked`: the YIELD has stopped the timer, and the
+    call ends when the loop ends, `C13_retry_bound`).  With `C13_timer_owned` / `C13_timer_unique`: a pending timed
+    call and its live timer correspond one to one.
+
+    (Invocations served by the meta session are exempt: the model lets the meta session park twice, see the
+    header of `WpBTimerRealm.lean`.) -/
+theorem C13_timer_live {cfg : Config} {r : Realm} (h : Realm.Reachable cfg r) {v : Invk} (hv : v ∈ r.ds.d.invs)
+    (hcan : v.canceled = false) (hcl : v.callee ≠ metaKey) (hnp : ¬ WpB.parked r v.id) {tid : Nat}
+    (hvt : v.timer = some tid) :
+    ∃ t ∈ r.ds.timers, t.id = tid ∧ t.canceled = false ∧ t.caller = v.callId.sess ∧ t.req = v.callId.req := by
+  have hd := h.inv.1.dinv
+  have hlive : WpB.LiveT r.ds tid := by
+    apply Classical.byContradiction
+    intro hn
+    rcases (WpB.Reachable.tinv h).live v.id ⟨v, hv, rfl, hcan, tid, hvt, hn⟩ with hm | hp
+    · exact hcl ((hd.call.callee v hv).trans hm)
+    · exact hnp hp
+  obtain ⟨t, ht, hid, hc⟩ := hlive
+  obtain ⟨_, _, h3⟩ := hd.aux.invTimer v hv tid hvt
+  exact ⟨t, ht, hid, hc, (h3 t ht hid).1, (h3 t ht hid).2⟩
+
+/-- … and how each step of the dealer keeps it (`WpB.dstep_liveStep`, a case analysis of every `sync*` function incl.
+    both loops of `syncRemoveSession`): write `WpB.DeadInv s i` for "invocation `i` is stored, not cancelled, records a
+    timer, and that timer is not live".  Across ANY `DStep` a new such invocation arises only (a) for the invocation a
+    non-progress YIELD met a full caller queue for and was told to retry (`again`; the realm parks the handler in
+    `retries`), or (b) when the expiry bookkeeping `dropTimers p` drops its recorded live timer (the realm does that
+    only together with `syncCancel` for that very call: `WpB.timerFire_liveStep`). -/
+theorem C13_timer_live_step {s : DState} {o : DOut} (h : DealerInv s) (st : DStep s o) (i : ReqId)
+    (hd : WpB.DeadInv o.st i) : WpB.DeadInv s i ∨ WpB.Exc s o i :=
+  WpB.dstep_liveStep h st i hd
+
+/-- case (a) happens: the blocked final YIELD of `Ex.sTimed` stops timer 1 and keeps the call -/
+example : (syncYield Ex.envCallerFull Ex.sTimed 1 1 [] [] [] false true).again = true ∧
+    (syncYield Ex.envCallerFull Ex.sTimed 1 1 [] [] [] false true).st.timers.map (fun t => (t.id, t.canceled)) = [(1, true)] ∧
+    (syncYield Ex.envCallerFull Ex.sTimed 1 1 [] [] [] false true).st.d.invs.map (fun v => (v.canceled, v.timer)) =
+      [(false, some 1)] := by decide +kernel
+
+/-- the hypotheses are met by the timed call of `Ex.rTimed` -/
+example : ∃ v ∈ Ex.rTimed.ds.d.invs, v.canceled = false ∧ v.callee ≠ metaKey ∧ ¬ WpB.parked Ex.rTimed v.id ∧
+    v.timer = some 1 := by
+  obtain ⟨h1, _, h3, _⟩ := Ex.rTimed_facts
+  cases hl : Ex.rTimed.ds.d.invs with
+  | nil => rw [hl] at h1; cases h1
+  | cons v rest =>
+    rw [hl] at h1
+    simp only [List.map_cons, List.cons.injEq, Prod.mk.injEq] at h1
+    refine ⟨v, List.mem_cons_self .., h1.1.2.2.1, ?_, ?_, h1.1.2.2.2.1⟩
+    · rw [h1.1.2.2.2.2]; decide
+    · rintro ⟨x, hx, _⟩
+      rw [List.length_eq_zero_iff.1 h3] at hx; cases hx
+
+/-- EXACTLY WHEN IT EXPIRES.  After a tick to time `target` (relational form `Realm.Adv` of `Realm.advance`,
+    `C13_advance_is_adv`), started in a state satisfying the invariants (every reachable state does), every pending,
+    not cancelled, not parked call served by a client that records a router-side timer has that timer live with a
+    deadline AFTER `target`.  So no call outlives the deadline of its timeout across a tick: a call whose deadline is
+    reached by the tick has been ended in that tick — by its timer, which fires at its deadline
+    (`C13_timeout_not_before`) with `syncCancel(killnowait, wamp.error.timeout)` (`C13_timeout_effect`), unless
+    something else completed it first — or is cancelled in kill mode (waiting for the callee), or parked in the
+    bounded retry loop of its final YIELD, or has had its timeout restarted by a later chunk (`C13_later_chunk_timer`:
+    then `v.timer` names the new timer, whose deadline is later). -/
+theorem C13_timeout_exact {target : Nat} {r r' : Realm} {evs : List (Realm × Realm.Due)} (h : Realm.Adv target r evs r')
+    (hi : Realm.RealmInv r) (hp : Realm.FuelOnly r.panic) (ht : WpB.TimerInv r)
+    {v : Invk} (hv : v ∈ r'.ds.d.invs) (hcan : v.canceled = false) (hcl : v.callee ≠ metaKey)
+    (hnp : ¬ WpB.parked r' v.id) {tid : Nat} (hvt : v.timer = some tid) :
+    ∃ t ∈ r'.ds.timers, t.id = tid ∧ t.canceled = false ∧ target < t.deadline ∧ r'.now = target := by
+  obtain ⟨_, hi', _, ht'⟩ := WpB.Adv.inv h hi hp ht
+  have hlive : WpB.LiveT r'.ds tid := by
+    apply Classical.byContradiction
+    intro hn
+    rcases ht'.live v.id ⟨v, hv, rfl, hcan, tid, hvt, hn⟩ with hm | hpk
+    · exact hcl ((hi'.dinv.call.callee v hv).trans hm)
+    · exact hnp hpk
+  obtain ⟨t, htm, hid, hc⟩ := hlive
+  obtain ⟨h1, h2⟩ := C13_timeout_all_fired h
+  exact ⟨t, htm, hid, hc, h1 t htm hc, h2⟩
+
+/-- … for a tick of the reachable realm: after `step (.tick ms)` (unless the model's fuel of 10000 timed events per
+    tick ran out) no pending, not cancelled, not parked, client-served timed call has a deadline `≤ now`. -/
+theorem C13_timeout_exact_tick {cfg : Config} {r : Realm} (h : Realm.Reachable cfg r) (ms : Nat)
+    (hfuel : ¬ Realm.FuelOut (r.now + ms) 10000 r)
+    {v : Invk} (hv : v ∈ (r.step (.tick ms)).2.ds.d.invs) (hcan : v.canceled = false) (hcl : v.callee ≠ metaKey)
+    (hnp : ¬ WpB.parked (r.step (.tick ms)).2 v.id) {tid : Nat} (hvt : v.timer = some tid) :
+    ∃ t ∈ (r.step (.tick ms)).2.ds.timers, t.id = tid ∧ t.canceled = false ∧ r.now + ms < t.deadline ∧
+      (r.step (.tick ms)).2.now = r.now + ms := by
+  rcases Realm.advance_adv (r.now + ms) 10000 r with hf | ⟨evs, hadv⟩
+  · exact absurd hf hfuel
+  · have hfl : ∀ x : Realm, x.flush.2.ds = x.ds ∧ x.flush.2.retries = x.retries ∧ x.flush.2.now = x.now := by
+      intro x
+      unfold Realm.flush
+      exact ⟨rfl, rfl, rfl⟩
+    rw [Realm.step_tick] at hv hnp ⊢
+    obtain ⟨e1, e2, e3⟩ := hfl (Realm.advance 10000 r (r.now + ms))
+    rw [e1] at hv ⊢
+    rw [e3]
+    have hnp' : ¬ WpB.parked (Realm.advance 10000 r (r.now + ms)) v.id := by
+      rintro ⟨x, hx, hxx⟩
+      exact hnp ⟨x, e2 ▸ hx, hxx⟩
+    exact C13_timeout_exact hadv h.inv.1 h.inv.2 (WpB.Reachable.tinv h) hv hcan hcl hnp' hvt
+
+set_option maxRecDepth 100000 in
+/-- the tick of 100 ms ends the timed call of `Ex.rTimed` (deadline 100): the caller gets ERROR wamp.error.timeout,
+    the callee (call canceling) an INTERRUPT; a tick of 99 ms leaves the call pending with its timer -/
+example :
+    (Ex.rTimed.step (.tick 100)).2.ds.d.calls = [] ∧
+    (Ex.rTimed.step (.tick 100)).1.out.map (fun q => (q.1, q.2.map Msg.typeCode)) = [(1, [69]), (2, [8])] ∧
+    (Ex.rTimed.step (.tick 99)).2.ds.d.calls = [⟨2, 5⟩] ∧
+    (Ex.rTimed.step (.tick 99)).2.ds.timers.map (fun t => (t.id, t.canceled)) = [(1, false)] :=
+  ⟨by decide +kernel, by decide +kernel, by decide +kernel, by decide +kernel⟩
+
+/-- NEVER EARLIER / THE RIGHT CALL.  Every call timer that fires during a tick is, at that moment, THE timer recorded
+    in the invocation of its own pending call, and that call has no other live timer.  (No side condition about
+    request-id reuse is needed: stale timers do not exist, `C13_timer_owned`.)  Since the timer recorded is the one
+    armed by the call's latest chunk with deadline `arming time + min(timeout, max)` (`C13_forward`,
+    `C13_later_chunk_timer`) and a timer fires with the clock at its deadline or later (`C13_timeout_not_before`), a
+    call is never timed out before its timeout has passed. -/
+theorem C13_timeout_not_early {target : Nat} {r r' : Realm} {evs : List (Realm × Realm.Due)} (h : Realm.Adv target r evs r')
+    (hi : Realm.RealmInv r) (hp : Realm.FuelOnly r.panic) (ht : WpB.TimerInv r)
+    (p : Realm × Realm.Due) (hpe : p ∈ evs) (t : Timer) (hpt : p.2 = .timer t) :
+    ∃ v ∈ p.1.ds.d.invs, v.callId = ⟨t.caller, t.req⟩ ∧ v.timer = some t.id ∧
+      (⟨t.caller, t.req⟩ : ReqId) ∈ p.1.ds.d.calls ∧ t.deadline ≤ target ∧
+      ∀ t' ∈ p.1.ds.timers, t'.canceled = false → t'.caller = t.caller → t'.req = t.req → t' = t := by
+  obtain ⟨hall, _⟩ := WpB.Adv.inv h hi hp ht
+  have hd := (hall p hpe).1.dinv
+  obtain ⟨h1, h2, h3, _⟩ := h.fired p hpe t hpt
+  obtain ⟨v, hv, hvc, hvt, hpend⟩ := C13_timer_owned hd h1 h2
+  exact ⟨v, hv, hvc, hvt, hpend, h3, fun t' ht' hc' hca hre => C13_timer_unique hd ht' h1 hc' h2 hca hre⟩
+
+/-- the hypotheses of the two theorems are met: a tick from the reachable `Ex.rTimed` is an `Adv` -/
+example : Realm.RealmInv Ex.rTimed ∧ Realm.FuelOnly Ex.rTimed.panic ∧ WpB.TimerInv Ex.rTimed ∧
+    (Realm.FuelOut 100 10000 Ex.rTimed ∨ ∃ evs, Realm.Adv 100 Ex.rTimed evs (Realm.advance 10000 Ex.rTimed 100)) :=
+  ⟨Ex.rTimed_reachable.inv.1, Ex.rTimed_reachable.inv.2, WpB.Reachable.tinv Ex.rTimed_reachable,
+   Realm.advance_adv 100 10000 Ex.rTimed⟩
 
 /-! ### the yield retry loop (`dealer.yield`, handler goroutine) -/
 
